@@ -12,8 +12,7 @@
    bodies compute exactly what Extrema.get_padded_extrema / Envelope.envelope / Extrema.find_maxima compute, for every
    integer signal, every pad_width, every mode, every spelling of the default options, and every fuel.
    Limits (notes/TIE_EXTREMA.md): default pad options only; parabolic_extrema=False in get_padded_extrema /
-   interp_envelope; `d.pop('mode')` does not mutate d; the local callable `pchip` is a
-   primitive name bound to the knots of the call. *)
+   interp_envelope; `d.pop('mode')` does not mutate d. *)
 From Coq Require Import String List Bool Arith ZArith.
 From EmdV Require Import model.Extrema model.Envelope lib.PyLoop lib.PyLoopTools gen.Gen_Skel_Extrema
   model.SkelPrims_Extrema proofs.SkelFacts_Extrema.
@@ -57,14 +56,15 @@ Proof. exact SkelFacts_Extrema.skeleton_gpe_pad_none. Qed.
 
 (* ---- 2. interp_envelope ------------------------------------------------------------------------- *)
 (* m = mode (upper / lower / combined), im = interp_method, eo = extrema_opts (None, {} or a dict with pad_width p
-   and default pad options), re = ret_extrema. The row of the local callable `pchip` is instantiated with im and the
-   padded extrema (knots) of the call. ie_outcome = Envelope.envelope with `return None` and the ValueError of the
+   and default pad options), re = ret_extrema. The call `pchip(t)` of the local callable receives the object built by
+   interp.PchipInterpolator / interp.pchip from (locs, pks) (translator option N16).
+   ie_outcome = Envelope.envelope with `return None` and the ValueError of the
    length check told apart (ie_outcome_envelope). *)
 Theorem skeleton_interp_envelope :
   forall (A : Type) (interp_of : imeth -> list Z -> list Z -> Z -> A)
          (x : list Z) (m : emode) (im : imeth) (eo : ext_opt) (re : bool) (f : nat),
-  exec (ie_prims A interp_of im (fst (knots x (ext_pad eo) m)) (snd (knots x (ext_pad eo) m)))
-       prog_interp_envelope f (ie_env0 A x (VStr (env_mode_str m)) (VStr (imeth_str im)) eo re)
+  exec (ie_prims A interp_of) prog_interp_envelope f
+       (ie_env0 A x (VStr (env_mode_str m)) (VStr (imeth_str im)) eo re)
   = ie_outcome A interp_of x (ext_pad eo) m im re.
 Proof. exact SkelFacts_Extrema.skeleton_interp_envelope. Qed.
 
@@ -81,16 +81,16 @@ Theorem ie_outcome_no_value_error :
 Proof. exact SkelFacts_Extrema.ie_outcome_no_value_error. Qed.
 
 Theorem skeleton_interp_envelope_bad_method :
-  forall (A : Type) (interp_of : imeth -> list Z -> list Z -> Z -> A) (km : imeth) (kL kM x : list Z)
+  forall (A : Type) (interp_of : imeth -> list Z -> list Z -> Z -> A) (x : list Z)
          (md : val (xval A)) (eo : ext_opt) (re : bool) (f : nat),
-  exec (ie_prims A interp_of km kL kM) prog_interp_envelope f (ie_env0 A x md (bad_method A) eo re)
+  exec (ie_prims A interp_of) prog_interp_envelope f (ie_env0 A x md (bad_method A) eo re)
   = Raise "ValueError".
 Proof. exact SkelFacts_Extrema.skeleton_interp_envelope_bad_method. Qed.
 
 Theorem skeleton_interp_envelope_bad_mode :
-  forall (A : Type) (interp_of : imeth -> list Z -> list Z -> Z -> A) (km : imeth) (kL kM x : list Z)
+  forall (A : Type) (interp_of : imeth -> list Z -> list Z -> Z -> A) (x : list Z)
          (im : imeth) (eo : ext_opt) (re : bool) (f : nat),
-  exec (ie_prims A interp_of km kL kM) prog_interp_envelope f
+  exec (ie_prims A interp_of) prog_interp_envelope f
        (ie_env0 A x (bad_mode A) (VStr (imeth_str im)) eo re)
   = Raise "ValueError".
 Proof. exact SkelFacts_Extrema.skeleton_interp_envelope_bad_mode. Qed.
